@@ -365,7 +365,18 @@ func handleOne(t e1.Task, p Params) (*e1.Result, map[uint64]struct{}) {
 		return &e1.Result{Task: t, ToolError: "unknown workflow/scenario"}, nil
 	}
 	seam.InstallStubs()
-	ref := SeqReference(w, sc)
+	// reference values are computed under the scheduler too (see explore.Controlled)
+	tainted := false
+	refPanic := ""
+	controlled := func(f func()) {
+		leaked, pv := explore.Controlled(f, vsched.Options{NumCPU: t.W, MaxSteps: 4000000})
+		tainted = tainted || leaked
+		if pv != "" && refPanic == "" {
+			refPanic = pv
+		}
+	}
+	var ref Ref
+	controlled(func() { ref = SeqReference(w, sc) })
 	var sc2 *seam.Scenario
 	var ref2 Ref
 	refPos := 0
@@ -377,8 +388,12 @@ func handleOne(t e1.Task, p Params) (*e1.Result, map[uint64]struct{}) {
 		sc2 = scenarioByName(w, name2)
 		r1, r2 := seam.NewRun(sc), seam.NewRun(sc2)
 		ss := &seam.Source{Data: append(r1.Stream(w.S, w.N), r2.Stream(w.S, w.N)...)}
-		_, _ = w.Seq(ss)
-		v2, e2 := w.Seq(ss)
+		var v2 bool
+		var e2 error
+		controlled(func() {
+			_, _ = w.Seq(ss)
+			v2, e2 = w.Seq(ss)
+		})
 		ref2 = Ref{Verdict: v2, Item: seam.NamedItem(e2), Err: fmt.Sprint(e2)}
 		refPos = ss.Pos()
 		r1.Close()
@@ -390,8 +405,15 @@ func handleOne(t e1.Task, p Params) (*e1.Result, map[uint64]struct{}) {
 	var refFErr error
 	if faulty {
 		rr := seam.NewRun(sc)
-		refFV, refFErr = w.Seq(MakeSource(p.Src, rr.Stream(w.S, w.N)))
+		controlled(func() { refFV, refFErr = w.Seq(MakeSource(p.Src, rr.Stream(w.S, w.N))) })
 		rr.Close()
+	}
+	if refPanic != "" {
+		// the sequential twin itself crashes: that is C07/C09's finding, not a comparison this task can make
+		return &e1.Result{Task: t, Capped: "the sequential reference run panicked (" + refPanic + "); comparison skipped", WallS: time.Since(start).Seconds()}, nil
+	}
+	if tainted {
+		return &e1.Result{Task: t, Capped: explore.PersistentNote, WallS: time.Since(start).Seconds()}, nil
 	}
 	orders := map[uint64]struct{}{}
 	assign := map[uint64]struct{}{}
@@ -509,7 +531,7 @@ func handleOne(t e1.Task, p Params) (*e1.Result, map[uint64]struct{}) {
 				v.Violation = fmt.Sprintf("panic: %s", x.PanicVal)
 			case x.Outcome == vsched.OutDeadlock:
 				v.Violation = fmt.Sprintf("deadlock: the call never returns; blocked: %v", x.Blocked)
-			case x.Outcome == vsched.OutLeak:
+			case x.Outcome == vsched.OutLeak && p.Mode == "c09":
 				v.Violation = fmt.Sprintf("goroutine leak after return: %v", x.Blocked)
 			case x.Outcome == vsched.OutHorizon:
 				v.Violation = "livelock: step horizon exceeded"
@@ -546,6 +568,10 @@ func handleOne(t e1.Task, p Params) (*e1.Result, map[uint64]struct{}) {
 				case p.Twice && src.Pos() != refPos:
 					v.Violation = fmt.Sprintf("two parallel calls consumed %d stream bytes, two sequential calls consume %d", src.Pos(), refPos)
 				}
+			}
+			if x.Outcome == vsched.OutLeak && p.Mode != "c09" && !x.LeakFromOnce {
+				// goroutines left blocked after the return are forbidden by C09 only
+				v.Persistent = true
 			}
 			return v
 		}
